@@ -440,9 +440,22 @@ func symBinop(op token.Token, t types.Type, x, y value) value {
 			return mkSym(k, q)
 		}
 		return mkSym(k, r)
+	case token.SHL, token.SHR:
+		// shifts by a constant of a non-negative value: * 2^c (wrapped to the type) and div 2^c
+		if yt.op == "const" && yt.val.Sign() >= 0 && yt.val.IsInt64() && yt.val.Int64() < 64 && xt.lo != nil && xt.lo.Sign() >= 0 {
+			p2 := new(big.Int).Lsh(big.NewInt(1), uint(yt.val.Int64()))
+			if op == token.SHL {
+				return mkSym(k, wrapTo(k, tMulC(xt, p2)))
+			}
+			return symBinop(token.QUO, t, x, concretize(k, tConst(p2)))
+		}
 	case token.AND_NOT:
 		if yt.op == "const" && yt.val.Sign() == 0 {
 			return mkSym(k, xt)
+		}
+		// x &^ all-ones
+		if yt.op == "const" && yt.val.Cmp(big.NewInt(-1)) == 0 {
+			return concretize(k, tInt(0))
 		}
 	case token.OR, token.XOR:
 		if yt.op == "const" && yt.val.Sign() == 0 {
@@ -450,6 +463,18 @@ func symBinop(op token.Token, t types.Type, x, y value) value {
 		}
 		if xt.op == "const" && xt.val.Sign() == 0 {
 			return mkSym(k, yt)
+		}
+		// a | b where a is a multiple of 2^j and 0 <= b < 2^j: the bits are disjoint, a + b
+		if op == token.OR {
+			for _, pr := range [][2]*Term{{xt, yt}, {yt, xt}} {
+				a, b := pr[0], pr[1]
+				if b.lo != nil && b.lo.Sign() >= 0 && b.hi != nil && a.lo != nil && a.lo.Sign() >= 0 {
+					j := uint(b.hi.BitLen())
+					if termMultipleOf(a, new(big.Int).Lsh(big.NewInt(1), j)) {
+						return mkSym(k, wrapTo(k, tAdd(a, b)))
+					}
+				}
+			}
 		}
 		// x | 2^j for a non-negative x: x + 2^j*(1 - bit_j(x)), bit_j(x) = (x div 2^j) mod 2
 		if op == token.OR {
@@ -468,6 +493,23 @@ func symBinop(op token.Token, t types.Type, x, y value) value {
 	case token.AND:
 		if yt.op == "const" && yt.val.Sign() == 0 || xt.op == "const" && xt.val.Sign() == 0 {
 			return concretize(k, tInt(0))
+		}
+		// x & (2^j - 1) for a non-negative x: x mod 2^j
+		{
+			ct, v := yt, x
+			if xt.op == "const" {
+				ct, v = xt, y
+			}
+			vt := termOf(v)
+			if ct.op == "const" && ct.val.Sign() > 0 && vt.lo != nil && vt.lo.Sign() >= 0 {
+				p2 := new(big.Int).Add(ct.val, big.NewInt(1))
+				if new(big.Int).And(p2, ct.val).Sign() == 0 { // ct = 2^j - 1
+					if vt.hi != nil && vt.hi.Cmp(ct.val) <= 0 {
+						return mkSym(k, vt)
+					}
+					return symBinop(token.REM, t, mkSym(k, vt), concretize(k, tConst(p2)))
+				}
+			}
 		}
 	case token.EQL:
 		return mkSym(types.Bool, tCmp("=", xt, yt))
@@ -507,4 +549,17 @@ func symConv(dst types.Type, x symv) value {
 		panic(unsupported("symbolic conversion to " + dst.String()))
 	}
 	return mkSym(k, wrapTo(k, x.t))
+}
+
+// termMultipleOf reports whether t is syntactically a multiple of c (c a power of two).
+func termMultipleOf(t *Term, c *big.Int) bool {
+	switch t.op {
+	case "const":
+		return new(big.Int).Mod(t.val, c).Sign() == 0
+	case "*":
+		return t.args[0].op == "const" && new(big.Int).Mod(t.args[0].val, c).Sign() == 0
+	case "+":
+		return termMultipleOf(t.args[0], c) && termMultipleOf(t.args[1], c)
+	}
+	return false
 }
